@@ -91,7 +91,14 @@ def _validate_one(job):
         if isinstance(v, dict) and "failed" in v and "id" in v:
             out[v["id"]] = v
     if len(out) != n:
-        raise Machinery("GwfProjectTrace gave %d verdicts for %d traces:\n%s" % (len(out), n, res.stdout[-3000:]))
+        ids = [t["id"] for t in json.load(open(path))]
+        missing = [i for i in ids if i not in out]
+        keep = path + ".missing.json"
+        json.dump([t for t in json.load(open(path)) if t["id"] in missing], open(keep, "w"))
+        import shutil
+
+        shutil.copy(keep, "/tmp/gwfverif-missing-verdict.json")
+        raise Machinery("GwfProjectTrace gave %d verdicts for %d traces (no verdict for %s, kept in /tmp/gwfverif-missing-verdict.json):\n%s" % (len(out), n, missing, res.stdout[-1500:]))
     os.remove(path)
     os.remove(cfg)
     return out
